@@ -157,6 +157,31 @@ def run(ctx):
             pairs = [(x, y) for x in xs for y in ys]
             run_case(ctx, W, np, [[p[0]] for p in pairs], [[p[1]] for p in pairs], 1, 1, None, None, None, dt_a, reqs, dtype_e=dt_e)
             ctx.count("dtypes", f"all states {np.dtype(dt_a)} vs {np.dtype(dt_e)}")
+    # ---- the result of test() describes the waveforms as they were WHEN they were tested: the same capture buffer refilled (load_data,
+    #      writes through .data) and the expected pattern edited after the call and before the failures are looked at -------------------
+    for case_ in range(40 if ctx.quick else 600):
+        nsig = rng.randint(1, 3); ns = rng.randint(1, 5)
+        a0 = [[rng.randrange(8) for _ in range(nsig)] for _ in range(ns)]
+        e0 = [[rng.randrange(8) for _ in range(nsig)] for _ in range(ns)]
+        wa, we = W.from_lines(np.array(a0, np.uint8)), W.from_lines(np.array(e0, np.uint8))
+        want = expected(a0, e0, nsig, nsig, None, None, None)
+        r = outcome(lambda: wa.test(we))
+        how = rng.choice(["load_data", "write through data", "edit expected", "both"])
+        a1 = [[rng.randrange(8) for _ in range(nsig)] for _ in range(ns)]
+        if how in ("load_data", "both"): wa.load_data(np.array(a1, np.uint8))
+        if how == "write through data": wa.data[:] = np.array(a1, np.uint8)
+        if how in ("edit expected", "both"): we.data[:] = np.array(a1, np.uint8)[::-1]
+        ctx.case(("result-after-mutation", case_, how))
+        if r[0] != "ok":
+            continue
+        look = rng.choice(["list", "len-then-index", "iterate", "success-then-list"])
+        fo = outcome(lambda: (r[1].success, [(int(f.sample_index), int(f.expected_sample_index), int(f.signal_index), int(f.actual_state), int(f.expected_state)) for f in
+                                             (list(r[1].failures) if look != "len-then-index" else [r[1].failures[k] for k in range(len(r[1].failures))])]))
+        got = ("ok", fo[1][1]) if fo[0] == "ok" else ("err", fo[1])
+        if got != want or (fo[0] == "ok" and fo[1][0] != (not want[1])):
+            ctx.violation(what="the failures of an earlier test() changed when a waveform was modified afterwards", mutation=how, looked_at_by=look, actual=a0, expected=e0,
+                          observed=str(got)[:300], required=str(want)[:300])
+            break
     # ---- larger waveforms, windows, mismatches, other dtypes ----------------------------------------------
     for _ in range(500 if ctx.quick else 20000):
         na = rng.randint(1, 5)
